@@ -1093,8 +1093,16 @@ enum cc_stat cc_array_sized_zip_iter_add(CC_ArraySizedZipIter *iter, uint8_t *e1
         (ar2->size == ar2->capacity && (expand_capacity(ar2) != CC_OK))) {
         return CC_ERR_ALLOC;
     }
-    cc_array_sized_add_at(ar1, e1, index);
-    cc_array_sized_add_at(ar2, e2, index);
+    enum cc_stat status = cc_array_sized_add_at(ar1, e1, index);
+    if (status != CC_OK) {
+        return status;
+    }
+    status = cc_array_sized_add_at(ar2, e2, index);
+    if (status != CC_OK) {
+        /* Both or none: take the first element out again. */
+        cc_array_sized_remove_at(ar1, index, NULL);
+        return status;
+    }
     iter->index++;
 
     return CC_OK;
